@@ -111,8 +111,9 @@ Proof. intros H. induction l as [|x r IH]; [reflexivity|]. cbn. rewrite H, IH. r
 
 (* ---------- member: unfolding lemmas ---------- *)
 Section MemberFacts.
+Variable anyb : bool.
 Variable sub : cls -> cls -> bool.
-Notation mem := (member sub).
+Notation mem := (member anyb sub).
 
 Lemma member_TUnion v ts : mem v (TUnion ts) = existsb (mem v) ts.
 Proof. cbn [member]. induction ts as [|t r IH]; [reflexivity|]. cbn [existsb]. rewrite <- IH. reflexivity. Qed.
@@ -245,8 +246,9 @@ Proof. reflexivity. Qed.
 
 (* ---------- Python == implies same members (one direction is all soundness needs) ---------- *)
 Section PyEqMember.
+Variable anyb : bool.
 Variable sub : cls -> cls -> bool.
-Notation mem := (member sub).
+Notation mem := (member anyb sub).
 
 Lemma NoDup_app_l {A} (l1 l2 : list A) : NoDup (l1 ++ l2) -> NoDup l1.
 Proof. induction l1 as [|x r IH]; intros H; [constructor|].
